@@ -69,7 +69,11 @@ LibSigs ==
   @@ ("{IR2}" :> Sig(0, <<TStr, Sl(TInt)>>, Nm("IR2", <<>>)))
   @@ ("{IR3}" :> Sig(0, <<TInt, TStr>>, Nm("IR3", <<>>)))                 \* type IR3 = {C: int; D: string}
   @@ ("{IBox}" :> Sig(1, <<SV(1), TStr>>, Nm("IBox", <<SV(1)>>)))
-  @@ ("{IPair}" :> Sig(2, <<SV(1), SV(2)>>, Nm("IPair", <<SV(1), SV(2)>>)))        \* type IPair<A, B> = {Fst: A; Snd: B}
+  @@ ("{IPair}" :> Sig(2, <<SV(1), SV(2)>>, Nm("IPair", <<SV(1), SV(2)>>)))
+  @@ ("{IRev}" :> Sig(2, <<SV(1), SV(2)>>, Nm("IRev", <<SV(1), SV(2)>>)))          \* type IRev<A, B> = {RSecond: B; RFirst: A}: fields in the other order
+  @@ ("{ITagged}" :> Sig(2, <<SV(1)>>, Nm("ITagged", <<SV(1), SV(2)>>)))           \* type ITagged<T, P> = {TVal: T}: P is a phantom parameter
+  \* let ipair a b = (a, b) (prelude) with an explicit type argument for its FIRST type parameter only: the second is fresh at every use
+  @@ ("ipair<int>" :> Sig(1, <<TInt, SV(1)>>, Tu(<<TInt, SV(1)>>)))        \* type IPair<A, B> = {Fst: A; Snd: B}
   \* type IU = IC1 of int | IC2 of int*string | IC3      type IOpt<T> = ISome of T | INone
   @@ ("IC1" :> Sig(0, <<TInt>>, Nm("IU", <<>>)))
   @@ ("IC2" :> Sig(0, <<Tu(<<TInt, TStr>>)>>, Nm("IU", <<>>)))
